@@ -133,7 +133,7 @@ c = M.contract("_CallItem.__call__", props=["C03", "C15"]).inlined()
 c.param("self", T.Ref("_CallItem"))
 c.ensures("callitem/applies-own-fields", "result is app(self.fn, obj(('*', self.args)), self.kwargs) or True")
 c.note("inlined into the worker so that the user call is seen in the worker's state (depth, pickler)")
-c.modifies()
+c.modifies("glob:loky.backend.reduction._loky_pickler_name", "glob:loky.backend.reduction._LokyPickler")
 
 # ---------------------------------------------------------------- _process_worker
 PUT = "call:SimpleQueue.put"
@@ -242,10 +242,11 @@ i.inv("trivial", "True")
 EMT = "_ExecutorManagerThread"
 WF_IDS = "forall(Int, lambda k: implies(G.work_ids[k], k in self.pending_work_items))"
 
-c = M.contract(f"{EMT}.add_call_item_to_queue", props=["C03"])
+c = M.contract(f"{EMT}.add_call_item_to_queue", props=["C03", "C04"])
 c.param("self", T.Ref(EMT))
 c.rely("ids-queued-are-pending", WF_IDS, "A-atomic")
 c.ensures("dispatch/ids-queued-stay-pending", WF_IDS)
+c.at_call("mp.Queue.put", "id-recorded-as-running-before-the-feeder-can-see-the-item", "mem(self.running_work_items, work_id)", prop=["C03", "C04"])
 c.raises_only("dispatch/no-exception")
 c.modifies("contents(self.pending_work_items)", "contents(self.running_work_items)", "G.work_ids")
 c.assumes("A-atomic")
@@ -318,6 +319,13 @@ c.ensures("pid/respawn-warns-and-holds-the-management-lock",
           "log_count('call:ProcessPoolExecutor._adjust_process_count') == 1)", prop="C07")
 c.at_call("loky.process_executor:ProcessPoolExecutor._adjust_process_count", "under-management-lock",
           "held(log_arg('deref', 0, 1)._processes_management_lock)", prop=["C07", "C08"])
+WAITING = ("(len(self.pending_work_items) - len(self.running_work_items) > 0 or "
+           "len(self.running_work_items) > old(len(self.processes)) - ite(old(result_item in self.processes), 1, 0))")
+c.ensures("pid/respawns-whenever-work-waits-and-the-pool-is-short",
+          f"implies({PID} and log_count('deref') == 1 and log_arg('deref', 0, 1) is not None and {WAITING} and "
+          "old(len(self.processes)) - ite(old(result_item in self.processes), 1, 0) < log_arg('deref', 0, 1)._max_workers, "
+          "log_count('call:ProcessPoolExecutor._adjust_process_count') == 1)", prop="C07")
+c.ensures("pid/reads-the-executor-only-when-work-waits", f"implies({PID}, (log_count('deref') == 1) == {WAITING})", prop="C07")
 c.raises("result/only-from-respawn", "BaseException", post=f"{PID}")
 c.modifies("contents(self.pending_work_items)", "contents(self.running_work_items)", "contents(self.processes)",
            "G.fut_n_exc", "G.fut_n_res", "G.fut_exc", "G.fut_res", "G.sem_released", "G.joined", "G.started", "G.pid_live", "G.proc_of_pid")
@@ -340,7 +348,10 @@ c.ensures("adjust/never-above-the-larger-of-old-and-max", "len(self._processes) 
 c.ensures("adjust/fills-up-to-max", "len(self._processes) >= self._max_workers", prop=["C08", "C07"])
 c.ensures("adjust/keeps-existing-workers", KEEP.format(o="old"), prop=["C08", "C10"])
 c.ensures("adjust/new-workers-are-started", NEWSTARTED.format(o="old"), prop="C08")
-c.raises_only("adjust/no-exception")
+c.raises("adjust/failed-spawn-keeps-the-table-sound", "OSError",
+         post="len(self._processes) <= max(old(len(self._processes)), self._max_workers) and " + KEEP.format(o="old") +
+              " and forall(Int, lambda k: implies(k in self._processes, G.pid_live[k]))", prop="C08")
+c.raises_only("adjust/only-spawn-errors")
 c.modifies("contents(self._processes)", "G.started", "G.pid_live", "G.proc_of_pid")
 i = M.invariant(f"{PPE}._adjust_process_count", 0, "while len(self._processes) < self._max_workers:")
 i.inv("bound", "len(self._processes) <= max(at_entry(len(self._processes)), self._max_workers) and len(self._processes) >= at_entry(len(self._processes))", prop="C08")
@@ -593,7 +604,9 @@ c.ensures("ensure/manager-running", "self._executor_manager_thread is not None")
 c.at_call(f"{PE}:{PPE}._adjust_process_count", "under-management-lock", "held(self._processes_management_lock)", prop="C08")
 c.ensures("ensure/adjusts-under-the-management-lock",
           "log_arg('acquire', 0, 0) is self._processes_management_lock and log_pos('acquire', 0) == 0 and log_tags()[-1] == 'release'", prop="C08")
-c.raises_only("ensure/no-exception")
+c.raises("ensure/failed-spawn-releases-the-lock", "OSError",
+         post="log_tags()[-1] == 'release' and len(self._processes) <= max(old(len(self._processes)), self._max_workers)", prop="C08")
+c.raises_only("ensure/only-spawn-errors")
 c.modifies("contents(self._processes)", "G.started", "G.pid_live", "G.proc_of_pid", "self._executor_manager_thread", f"glob:{PE}.process_pool_executor_at_exit")
 
 c = M.contract(f"{PPE}.submit", props=["C02", "C03", "C05", "C07", "C08"])
@@ -611,6 +624,9 @@ c.raises("submit/broken-first-and-nothing-touched", "BaseException",
          post=f"ite(old(self._flags.broken) is not None, exc is old(self._flags.broken) and {UNCHANGED}, "
               f"ite(old(self._flags.shutdown), exc_is(exc, 'ShutdownExecutorError') and {UNCHANGED}, "
               f"ite(old(_global_shutdown), exc_is(exc, 'RuntimeError') and {UNCHANGED}, True)))", prop=["C02", "C05"])
+c.raises("submit/rep-invariants-kept-when-a-spawn-fails", "OSError",
+         post="forall(Int, lambda k: implies(k in self._pending_work_items, k < self._queue_count)) and "
+              "forall(Int, lambda k: implies(G.work_ids[k], k in self._pending_work_items))", prop="C03")
 c.ensures("submit/only-on-a-healthy-executor", "old(self._flags.broken) is None and not old(self._flags.shutdown) and not old(_global_shutdown)", prop=["C02", "C05"])
 c.ensures("submit/fresh-id-maps-to-own-work-item",
           "self._queue_count == old(self._queue_count) + 1 and old(self._queue_count) in self._pending_work_items and "
